@@ -8,6 +8,7 @@ import (
 var plMu sync.Mutex
 
 // holder returns the calling goroutine's task if it holds the token, else nil.
+//go:norace
 func (s *Sim) holder() *Task {
 	if s == nil {
 		return nil
@@ -39,11 +40,14 @@ type IOAction struct {
 
 // IO is called by simos/simldb before a mutating operation. It is a scheduling point.
 // A dead task never returns from it.
+//go:norace
 func IO(kind, path string, off int64, n int) (IOAction, *Sim) {
 	s := cur.Load()
 	if s == nil {
 		return IOAction{}, nil
 	}
+	raceOff()
+	defer raceOn()
 	Yield(-5)
 	t := s.self()
 	node := 0
@@ -67,6 +71,7 @@ func IO(kind, path string, off int64, n int) (IOAction, *Sim) {
 
 // Die kills the calling task's node and terminates the calling task (used by the
 // simulated disk to realise CrashBefore/CrashAfter).
+//go:norace
 func Die() {
 	s := cur.Load()
 	if s == nil {
@@ -107,7 +112,10 @@ func NodeLocal(name string, mk func() interface{}) interface{} {
 
 var passThroughLocals = map[nlKey]interface{}{}
 
+//go:norace
 func NodeLocalFor(node int, name string, mk func() interface{}) interface{} {
+	raceOff()
+	defer raceOn()
 	s := cur.Load()
 	k := nlKey{node, name}
 	if s == nil {
@@ -132,11 +140,14 @@ func NodeLocalFor(node int, name string, mk func() interface{}) interface{} {
 // IOManaged is like IO but does nothing when the caller is not a managed task
 // (e.g. goleveldb's own background goroutines) and never terminates the caller: the
 // caller is inside third-party code holding its locks; it dies at its next yield.
+//go:norace
 func IOManaged(kind, path string, off int64, n int) (IOAction, *Sim) {
 	s := cur.Load()
 	if s == nil {
 		return IOAction{}, nil
 	}
+	raceOff()
+	defer raceOn()
 	t := s.self()
 	if t == nil || s.holder() == nil {
 		return IOAction{}, nil
@@ -154,6 +165,7 @@ func IOManaged(kind, path string, off int64, n int) (IOAction, *Sim) {
 }
 
 // KillCurrentNode kills the node of the calling task without terminating the caller.
+//go:norace
 func KillCurrentNode() {
 	s := cur.Load()
 	if s == nil {
